@@ -25,7 +25,12 @@ class PoolWorld(object):
     self.reg.default_open = params.get('open_mode', 'ok')
     self.reg.ok_first = params.get('ok_first', 0)
     self.reg.reopen_ok = False
-    builder = WatermarkPoolSink.Builder(min_watermark=self.mn, max_watermark=self.mx, max_queue_len=self.ql)
+    if params.get('stock_after_prior'):
+      # another pool of the same process was configured earlier; this one leaves the queue length at its default (unbounded)
+      WatermarkPoolSink.Builder(min_watermark=0, max_watermark=1, max_queue_len=1)
+      builder = WatermarkPoolSink.Builder(min_watermark=self.mn, max_watermark=self.mx)
+    else:
+      builder = WatermarkPoolSink.Builder(min_watermark=self.mn, max_watermark=self.mx, max_queue_len=self.ql)
     builder.next_provider = stubs.StubProvider(self.reg)
     self.pool = builder.CreateSink({SinkProperties.Endpoint: stubs.make_endpoint(0), SinkProperties.Label: 'svc'})
     self.Terminal = stubs.make_terminal_class()
